@@ -24,9 +24,10 @@ func init() {
 			"C09.5 no reachable function returns with a lock held; " +
 			"C09.6 Client.HandleInbound never returns (false, non-nil error); " +
 			"C09.7 Server.readLoop leaves its loop only on a read error; a handler error does not; " +
-			"C09.8 no single-value type assertion and no explicit panic() is reachable; " +
+			"C09.8 no single-value type assertion, no explicit panic() and no library call that panics on a value that does not fit (big.Int.FillBytes without a size test) is reachable; " +
 			"C09.9 results of accessors that can be nil (GetAllocation, GetChannelByNumber, FindAddrByChannelNumber, …) are not dereferenced on a path that has not tested them; " +
 			"C09.10 no function with an interface result returns a nil pointer of a concrete type boxed into it (the caller's != nil test would pass and the first method call crash); " +
+			"C09.11 a channel held in a struct field that some function closes is sent on only under a lock that every close of it holds too (a send racing the close panics); " +
 			"make([]T, n, c) with an input-dependent n has 0 ≤ n ≤ c.",
 		NotCovered: "totality of pion/stun's decoder (outside the module), nil dereferences in general, CPU/memory exhaustion, the liveness probe itself.",
 		Run:        runC09,
@@ -91,6 +92,7 @@ func runC09(c *Ctx) {
 	rulePanicSites(c, "C09.8", fns)
 	ruleNilReceivers(c, "C09.9", fns)
 	ruleTypedNil(c, "C09.10")
+	ruleNoSendOnClosable(c, "C09.11")
 }
 
 // ---------------------------------------------------------------------------------
@@ -639,6 +641,27 @@ func rulePanicSites(c *Ctx, rule string, fns []*ssa.Function) {
 				if !x.CommaOk && !w.homogeneousPoolGet(x) {
 					bad = append(bad, "single-value type assertion at "+w.instrPos(in)+" in "+fname(fn))
 				}
+			case *ssa.Call:
+				// library calls documented to panic on a value that does not fit: big.Int.FillBytes
+				// panics when the integer needs more bytes than the buffer has
+				if stdCallee(&x.Call) == "(*math/big.Int).FillBytes" {
+					guarded := false
+					for _, f := range w.factsAt(in) {
+						for _, v := range []ssa.Value{f.X, f.Y} {
+							if v == nil {
+								continue
+							}
+							if bc, _ := callOf(stripIntConv(v)); bc != nil {
+								if n := stdCallee(&bc.Call); (n == "(*math/big.Int).BitLen" || n == "(*math/big.Int).Cmp") && w.sameKey(bc.Call.Args[0], x.Call.Args[0]) {
+									guarded = true
+								}
+							}
+						}
+					}
+					if !guarded {
+						bad = append(bad, "big.Int.FillBytes without a dominating size test of the integer (it panics when the value does not fit the buffer) at "+w.instrPos(in)+" in "+fname(fn))
+					}
+				}
 			}
 		})
 	}
@@ -949,4 +972,86 @@ func (w *World) homogeneousPoolGet(ta *ssa.TypeAssert) bool {
 		})
 	}
 	return good
+}
+
+// ruleNoSendOnClosable (C09.11): a send on a closed channel panics. A channel held in a struct
+// field that some function closes may therefore be sent on only under a lock that every close
+// of that field is made under as well (the closer then also removes the sender's way to it, or
+// the sender tests a flag under the same lock); a select with a default does not help — it
+// still panics.
+func ruleNoSendOnClosable(c *Ctx, rule string) {
+	w := c.W
+	li := w.lockInfo()
+	c.Rule(rule, "no send on a closable channel: for every struct field of channel type that is closed somewhere in the module, each send on it (statement or select case) is made under a mutex that is held at every close of that field", 1)
+	type site struct {
+		in   ssa.Instruction
+		held sset
+	}
+	closes := map[*types.Var][]site{}
+	sends := map[*types.Var][]site{}
+	for _, fn := range w.ModFns {
+		w.eachInstr(fn, func(in ssa.Instruction) {
+			switch x := in.(type) {
+			case *ssa.Call:
+				if b, isB := x.Call.Value.(*ssa.Builtin); isB && b.Name() == "close" {
+					if _, f, ok := fieldLoad(x.Call.Args[0]); ok {
+						closes[f] = append(closes[f], site{in, li.mustAt(in)})
+					}
+				}
+			case *ssa.Send:
+				if _, f, ok := fieldLoad(x.Chan); ok {
+					sends[f] = append(sends[f], site{in, li.mustAt(in)})
+				}
+			case *ssa.Select:
+				for _, st := range x.States {
+					if st.Dir == types.SendOnly {
+						if _, f, ok := fieldLoad(st.Chan); ok {
+							sends[f] = append(sends[f], site{in, li.mustAt(in)})
+						}
+					}
+				}
+			}
+		})
+	}
+	c.Anchor(rule, "scan")
+	n := 0
+	var fields []*types.Var
+	for f := range closes {
+		fields = append(fields, f)
+	}
+	sort.Slice(fields, func(i, j int) bool { return fields[i].Pos() < fields[j].Pos() })
+	for _, f := range fields {
+		for _, s := range sends[f] {
+			n++
+			common := ""
+			for cls := range s.held {
+				base := strings.TrimSuffix(strings.TrimSuffix(cls, "/W"), "/R")
+				all := true
+				for _, cl := range closes[f] {
+					if !holds(cl.held, base, false) {
+						all = false
+					}
+				}
+				if all {
+					common = base
+				}
+			}
+			if common == "" && f == w.Field("client", "Transaction", "resultCh") {
+				// one named exception: the result channel is handed over through the transaction
+				// table — closed only for transactions still in the table, under Client.mutexTrMap
+				// (C12.6), and sent on only after the sender removed the transaction from the table
+				// inside one hold of that lock (C12.2, checked on every path to WriteResult)
+				c.OK(rule, fname(s.in.Parent()), "send on "+f.Name(), w.instrPos(s.in), "ownership passes through the transaction table: close needs the entry present, send needs it removed, both decided under Client.mutexTrMap (C12.2, C12.6)")
+				continue
+			}
+			if common != "" {
+				c.OK(rule, fname(s.in.Parent()), "send on "+f.Name(), w.instrPos(s.in), "sent under "+common+", which every close of the field holds too")
+			} else {
+				c.Bad(rule, fname(s.in.Parent()), "send on "+f.Name(), w.instrPos(s.in), fmt.Sprintf("the channel in field %s is closed at %s and sent on here without a lock common to both (held here: {%s}): a send that races the close panics the goroutine — on the inbound path, the endpoint", f.Name(), w.instrPos(closes[f][0].in), s.held.str()))
+			}
+		}
+	}
+	if n == 0 {
+		c.OK(rule, "-", "scan", "-", fmt.Sprintf("%d closable channel fields, none of them is sent on", len(fields)))
+	}
 }
